@@ -104,6 +104,9 @@ struct Server {
 struct Caller {
     q: u8,
     start_ms: u16,
+    /// the caller drops its lookup after this many ms if it has not completed (0 = never)
+    #[serde(default)]
+    give_up_ms: u16,
 }
 
 #[derive(Clone, Debug, Serialize, Deserialize)]
@@ -505,6 +508,8 @@ enum Outcome {
     Other(String),
     /// the response stream ended without an item
     Nothing,
+    /// the caller dropped the lookup before it completed (scheduled by the case)
+    Abandoned,
 }
 
 impl Outcome {
@@ -520,6 +525,7 @@ impl Outcome {
             Outcome::NoConnections => "no-connections".into(),
             Outcome::Other(s) => format!("other({s})"),
             Outcome::Nothing => "nothing".into(),
+            Outcome::Abandoned => "abandoned".into(),
         }
     }
 }
@@ -661,7 +667,25 @@ fn run_pool(c: &PoolCase, callers: &[Caller], later: bool) -> Result<Run, crate:
         let seq_start = tick(&seq);
         let name = Name::from_ascii(QNAMES[cl.q as usize % QNAMES.len()]).expect("fixed name");
         let mut s = pool.lookup(Query::new(name, RecordType::A), DnsRequestOptions::default());
-        let item = s.next().await;
+        let item = if cl.give_up_ms > 0 {
+            let quit = Box::pin(SimTime::delay_for(Duration::from_millis(cl.give_up_ms as u64)));
+            match futures_util::future::select(s.next(), quit).await {
+                futures_util::future::Either::Left((item, _)) => item,
+                futures_util::future::Either::Right(_) => {
+                    drop(s);
+                    return CallerResult {
+                        q: cl.q % QNAMES.len() as u8,
+                        t_start,
+                        t_done: sim::now_nanos(),
+                        seq_start,
+                        seq_done: tick(&seq),
+                        outcome: Outcome::Abandoned,
+                    };
+                }
+            }
+        } else {
+            s.next().await
+        };
         CallerResult {
             q: cl.q % QNAMES.len() as u8,
             t_start,
@@ -687,6 +711,7 @@ fn run_pool(c: &PoolCase, callers: &[Caller], later: bool) -> Result<Run, crate:
         let cl = Caller {
             q: callers[0].q,
             start_ms: 1,
+            give_up_ms: 0,
         };
         match sim.run(lookup(pool.clone(), cl, seq.clone()), 200_000) {
             Ok(r) => Some(r),
@@ -1067,6 +1092,11 @@ fn run_faults(c: &PoolCase, rec: &mut Rec) -> CaseResult {
 struct DedupCase {
     base: PoolCase,
     k: u8,
+    /// Some((join, patience, gap)): besides the first caller, a second identical caller joins at
+    /// `join` ms and drops its lookup `patience` ms later; a third identical caller starts `gap`
+    /// ms after that. While the first exchange is still in flight the third must share it.
+    #[serde(default)]
+    quitter: Option<(u16, u16, u16)>,
 }
 
 fn per_server_counts(log: &[Exch], upto: Option<u64>) -> BTreeMap<(usize, bool), u32> {
@@ -1079,11 +1109,69 @@ fn per_server_counts(log: &[Exch], upto: Option<u64>) -> BTreeMap<(usize, bool),
     m
 }
 
+fn run_dedup_quitter(d: &DedupCase, q: (u16, u16, u16), rec: &mut Rec) -> CaseResult {
+    let c = &d.base;
+    let (join, patience, gap) = (q.0, q.1.max(1), q.2);
+    let callers = vec![
+        Caller { q: 0, start_ms: 0, give_up_ms: 0 },
+        Caller { q: 0, start_ms: join, give_up_ms: patience },
+        Caller { q: 0, start_ms: join.saturating_add(patience).saturating_add(gap), give_up_ms: 0 },
+    ];
+    let one = vec![Caller { q: 0, start_ms: 0, give_up_ms: 0 }];
+    let solo = run_pool(c, &one, false)?;
+    let multi = run_pool(c, &callers, false)?;
+    classify(c, rec);
+    rec.class("dedup:waiter-gives-up");
+    let (first, quit, third) = (&multi.results[0], &multi.results[1], &multi.results[2]);
+    let joined = quit.t_start < first.t_done && quit.t_start > first.t_start || (quit.t_start == first.t_start && overlapped(quit, first));
+    let abandoned = matches!(quit.outcome, Outcome::Abandoned);
+    let third_during_first = third.t_start < first.t_done;
+    rec.class(format!("waiter:{}", if !joined { "never-overlapped" } else if abandoned { "abandoned-in-flight" } else { "completed" }));
+    rec.class(if third_during_first { "third:starts-while-first-in-flight" } else { "third:starts-after-first-completed" });
+    if !(joined && abandoned && third_during_first) {
+        return Ok(());
+    }
+    rec.nontrivial();
+    // the first caller is unaffected by the waiter's departure, the third shares its exchange
+    vensure!(
+        third.outcome.brief() == first.outcome.brief() && third.t_done == first.t_done,
+        "lookup-not-shared-after-a-waiter-gave-up",
+        "first caller: {} at {} ns; a caller that started at {} ns, after a waiter had dropped out at {} ns, got {} at {} ns",
+        first.outcome.brief(),
+        first.t_done,
+        third.t_start,
+        quit.t_done,
+        third.outcome.brief(),
+        third.t_done
+    );
+    let deterministic = !matches!(strategy_of(c.strategy), ServerOrderingStrategy::QueryStatistics);
+    if deterministic {
+        let a = per_server_counts(&solo.log, Some(solo.results[0].t_done));
+        let b = per_server_counts(&multi.log, Some(first.t_done));
+        vensure!(
+            a == b,
+            "lookup-not-shared-after-a-waiter-gave-up",
+            "per-(server,tcp) exchange counts differ: one caller {a:?}; first + abandoning waiter + late joiner {b:?}"
+        );
+        vensure!(
+            solo.results[0].outcome.brief() == first.outcome.brief(),
+            "shared-result-differs-from-single-lookup",
+            "one caller: {}, with waiter and late joiner: {}",
+            solo.results[0].outcome.brief(),
+            first.outcome.brief()
+        );
+    }
+    Ok(())
+}
+
 fn run_dedup(d: &DedupCase, rec: &mut Rec) -> CaseResult {
+    if let Some(q) = d.quitter {
+        return run_dedup_quitter(d, q, rec);
+    }
     let c = &d.base;
     let k = d.k.clamp(2, 5) as usize;
-    let one = vec![Caller { q: 0, start_ms: 0 }];
-    let many = vec![Caller { q: 0, start_ms: 0 }; k];
+    let one = vec![Caller { q: 0, start_ms: 0, give_up_ms: 0 }];
+    let many = vec![Caller { q: 0, start_ms: 0, give_up_ms: 0 }; k];
     let solo = run_pool(c, &one, true)?;
     let multi = run_pool(c, &many, true)?;
     let mut soft: Vec<crate::core::Fail> = vec![];
@@ -1223,8 +1311,8 @@ fn server(silent_w: u32) -> impl Strategy<Value = Server> {
 
 fn pool_case(silent_w: u32) -> impl Strategy<Value = PoolCase> {
     let callers = prop_oneof![
-        3 => Just(vec![Caller { q: 0, start_ms: 0 }]),
-        4 => vec((0u8..3, prop_oneof![3 => Just(0u16), 1 => 1u16..50, 1 => 50u16..1500]).prop_map(|(q, start_ms)| Caller { q, start_ms }), 2..=5),
+        3 => Just(vec![Caller { q: 0, start_ms: 0, give_up_ms: 0 }]),
+        4 => vec((0u8..3, prop_oneof![3 => Just(0u16), 1 => 1u16..50, 1 => 50u16..1500]).prop_map(|(q, start_ms)| Caller { q, start_ms, give_up_ms: 0 }), 2..=5),
     ];
     (
         vec(server(silent_w), 1..=4),
@@ -1393,7 +1481,11 @@ fn run_retry(c: &RetryCase, rec: &mut Rec) -> CaseResult {
 }
 
 fn dedup_case() -> impl Strategy<Value = DedupCase> {
-    (pool_case(2), 2u8..=5).prop_map(|(base, k)| DedupCase { base, k })
+    let quitter = prop_oneof![
+        3 => Just(None),
+        2 => (prop_oneof![Just(0u16), 1u16..30, 30u16..400], prop_oneof![1u16..20, 20u16..300], prop_oneof![Just(0u16), 1u16..50]).prop_map(Some),
+    ];
+    (pool_case(2), 2u8..=5, quitter).prop_map(|(base, k, quitter)| DedupCase { base, k, quitter })
 }
 
 pub fn check() -> Option<Check> {
@@ -1415,7 +1507,7 @@ pub fn check() -> Option<Check> {
     Some(Check {
         id: "C18",
         level: "exploration",
-        rule: "real NameServerPool::from_config on the simulated runtime in virtual time; 1..4 servers x behaviour {answer, NXDOMAIN trusted/untrusted, TC on UDP + {full, refused, reset, hang} on TCP, silent, io-error at send/recv/connect, reset/close mid-exchange, Busy x n then as before} x latency x {udp+tcp, udp, tcp} x ordering strategy x num_concurrent_reqs {1,2,4} x timeouts x 0x20 x 1..5 callers (identical/distinct, staggered) x optional later lookup; non-trivial = distinct scenario with >= 1 faulty and >= 1 answering server, or >= 2 callers; de-duplication: twin runs (1 caller vs k identical callers on fresh pools) compared exchange by exchange. retry_handle: RetryDnsHandle (attempts 0..4) around a scripted handle yielding answer / timeout / io error / Busy / NoConnections / NXDOMAIN / NODATA / other error per send; result and number of sends must be what its documentation says (negative responses and NoConnections are final, Busy is not counted, every other failure costs one attempt).",
+        rule: "real NameServerPool::from_config on the simulated runtime in virtual time; 1..4 servers x behaviour {answer, NXDOMAIN trusted/untrusted, TC on UDP + {full, refused, reset, hang} on TCP, silent, io-error at send/recv/connect, reset/close mid-exchange, Busy x n then as before} x latency x {udp+tcp, udp, tcp} x ordering strategy x num_concurrent_reqs {1,2,4} x timeouts x 0x20 x 1..5 callers (identical/distinct, staggered) x optional later lookup; non-trivial = distinct scenario with >= 1 faulty and >= 1 answering server, or >= 2 callers; de-duplication: twin runs (1 caller vs k identical callers on fresh pools) compared exchange by exchange; in 40 % of the cases a second identical caller joins and drops its lookup while the first is in flight, and a third identical caller starting after that must still share the first one's exchange. retry_handle: RetryDnsHandle (attempts 0..4) around a scripted handle yielding answer / timeout / io error / Busy / NoConnections / NXDOMAIN / NODATA / other error per send; result and number of sends must be what its documentation says (negative responses and NoConnections are final, Busy is not counted, every other failure costs one attempt).",
         assumptions: vec![
             "liveness is asserted only where the pool's ordering cannot matter: no silent server, at least one reliably answering server, worst-case serial cost below the timeout; a server whose TCP connect hangs is admitted at the cost of connect_timeout (single caller only)",
             "after a TC reply the lookup is TCP-only by design (ConnectionPolicy.disable_udp): a UDP-only healthy server is then not counted as healthy",
